@@ -486,6 +486,25 @@ def retryable : Err → Bool
   | .fault .reset => true
   | _ => false
 
+/-! ### the bounded inflate loops of `_codec` (what keeps "decoded bytes held" near the cap) -/
+
+/-- the per-call output limit handed to the library: `min(_DECOMPRESS_CHUNK_BYTES, max_output_size - total + K)` -/
+def inflateLimit (off cap total : Nat) : Nat := min Gen.Fetch.inflateChunk (cap - total + off)
+
+/-- what the library produces for one call when `avail` more decoded bytes exist: at most the limit —
+except that a limit of `0` means *unlimited* for `zlib.Decompress.decompress` (and an empty read, i.e. EOF, for a zstd reader) -/
+def libAnswer (zeroIsUnlimited : Bool) (limit avail : Nat) : Nat :=
+  if limit = 0 then (if zeroIsUnlimited then avail else 0) else min limit avail
+
+/-- decoded bytes produced by the loop `total += len(chunk); if total <guard> cap: raise` over successive library calls
+(`avail` = how much each call could produce), until it raises or the input ends -/
+def inflateTotal (zeroIsUnlimited : Bool) (guard : String) (off cap : Nat) : List Nat → Nat → Nat
+  | [], total => total
+  | a :: rest, total =>
+    let out := libAnswer zeroIsUnlimited (inflateLimit off cap total) a
+    if cmpNat guard (total + out) cap then total + out
+    else inflateTotal zeroIsUnlimited guard off cap rest (total + out)
+
 /-- the environment an attempt runs in: the caller's validator if `fetch_url` hands `url_validator` to that attempt's
 `_fetch_with_probe`, no validator otherwise (extracted per attempt: `firstAttemptValidated`, `retryValidated`) -/
 def withValidator (env : Env) (forwarded : Bool) : Env :=
